@@ -351,7 +351,8 @@ class SymEval:
             else:
                 for i, t in enumerate(target.elts):
                     self.assign(r, t.value if isinstance(t, ast.Starred) else t, _index(value, i), loop)
-        elif isinstance(target, ast.Attribute) and isinstance(target.value, ast.Name) and target.value.id == 'self':
+        elif isinstance(target, ast.Attribute) and isinstance(target.value, ast.Name) and (
+                target.value.id == 'self' or (isinstance(r.env.get(target.value.id), ast.Name) and r.env[target.value.id].id == 'self')):
             r.env['self.' + target.attr] = value
             r.stores.append((target.attr, value, r.susp, loop))
             r.order.append(('store', len(r.stores) - 1))
